@@ -225,7 +225,7 @@ func C14() *check.Property {
 		Title:    "Downstream termination cancels upstream without waiting for it",
 		Patterns: cat(CorePatterns, PluginPkgs, []string{PromPkg}, RatePkgs),
 		Scope:    []string{ro},
-		Rules:    []check.Rule{ruleNoUncancellableBlock(), ruleCtxWatch(), ruleRelease(), ruleSelfUnsubscribe(), ruleAddTeardown()},
+		Rules:    []check.Rule{ruleNoUncancellableBlock(), ruleCtxWatch(), ruleRetryCtx(), ruleRelease(), ruleSelfUnsubscribe(), ruleAddTeardown(), ruleFinalizerDiscipline()},
 		Explanation: "Static argument: upstream release is the teardown chain (RELEASE, SELF-UNSUBSCRIBE, ADD-TEARDOWN — the positive half, shared with C03), and an operator's teardown exists only once its subscribe function has returned. " +
 			"NO-UNCANCELLABLE-BLOCK therefore lists every unbounded wait that executes before the subscribe closure returns (Wait, Collect, range over a channel, select without a timer case — located through the model's contexts, " +
 			"including waits in upstream slots that run inside the closure) and accepts it only when the waited-on object is released by something registered on the destination itself. CTX-WATCH checks the context case of the context-aware sources.",
